@@ -545,6 +545,82 @@ fn sender_act<T: Tx>(tx: T, action: SenderAction, shared: &Shared, events: &mut 
     }
 }
 
+// ------------------------------------------------------------------------------------------------
+// Endpoint threads: one pair per scenario, or a persistent pair reused by every round of a storm
+// ------------------------------------------------------------------------------------------------
+
+type Job = Box<dyn FnOnce() + Send>;
+
+/// Two persistent threads (slot 0: sender role, slot 1: receiver role). A `storm` scenario runs
+/// many short rounds on them, so that a round costs two channel hand-offs instead of two thread
+/// creations - under Miri this multiplies the number of races per second of interpretation.
+struct Exec {
+    txs: Vec<std::sync::mpsc::Sender<Job>>,
+    joins: Vec<std::thread::JoinHandle<()>>,
+}
+
+impl Exec {
+    fn new(n: usize) -> Self {
+        let mut txs = Vec::new();
+        let mut joins = Vec::new();
+        for _ in 0..n {
+            let (tx, rx) = std::sync::mpsc::channel::<Job>();
+            txs.push(tx);
+            joins.push(std::thread::spawn(move || {
+                while let Ok(job) = rx.recv() {
+                    job();
+                }
+            }));
+        }
+        Self { txs, joins }
+    }
+}
+
+impl Drop for Exec {
+    fn drop(&mut self) {
+        self.txs.clear();
+        for j in self.joins.drain(..) {
+            let _ = j.join();
+        }
+    }
+}
+
+thread_local! {
+    static EXEC: std::cell::RefCell<Option<Exec>> = const { std::cell::RefCell::new(None) };
+}
+
+type Done<Ret> = std::sync::mpsc::Receiver<std::thread::Result<Ret>>;
+
+/// Starts `f` on the persistent thread of that slot if a storm is running, else on a new thread.
+fn launch<Ret: Send + 'static>(slot: usize, f: impl FnOnce() -> Ret + Send + 'static) -> Done<Ret> {
+    let (tx, rx) = std::sync::mpsc::channel();
+    let job: Job = Box::new(move || {
+        let r = std::panic::catch_unwind(std::panic::AssertUnwindSafe(f));
+        let _ = tx.send(r);
+    });
+    let job = EXEC.with(|e| match e.borrow().as_ref() {
+        Some(exec) => {
+            exec.txs[slot].send(job).expect("persistent endpoint thread is alive");
+            None
+        }
+        None => Some(job),
+    });
+    if let Some(job) = job {
+        std::thread::spawn(job);
+    }
+    rx
+}
+
+/// Waits for a launched job; a panic inside it continues on the calling thread (simkit reports a
+/// panic escaping `run` as a violation of class `panic: ...`).
+fn finish<Ret>(done: &Done<Ret>, what: &str) -> Ret {
+    match done.recv() {
+        Ok(Ok(v)) => v,
+        Ok(Err(p)) => std::panic::resume_unwind(p),
+        Err(_) => panic!("{what} vanished without a result"),
+    }
+}
+
 /// Runs the two endpoints' scripts (concurrently or op-interleaved) and the quiescent checks that
 /// involve the endpoints. `traffic` is run on extra threads (or inline in `seq`).
 fn run_pair<T: Tx, R: Rx>(
@@ -563,8 +639,9 @@ fn run_pair<T: Tx, R: Rx>(
         let s_shared = Arc::clone(shared);
         let action = sc.sender;
         let sy = sc.sender_yields;
-        let sender_thread = std::thread::spawn(move || {
+        let sender_done = launch(0, move || {
             let mut events = Vec::new();
+            IS_RECEIVER.with(|c| c.set(false));
             s_shared.wait_go();
             yields(sy);
             sender_act(tx, action, &s_shared, &mut events);
@@ -574,7 +651,7 @@ fn run_pair<T: Tx, R: Rx>(
         let r_shared = Arc::clone(shared);
         let script = sc.receiver.clone();
         let ry = sc.receiver_yields;
-        let receiver_thread = std::thread::spawn(move || {
+        let receiver_done = launch(1, move || {
             let mut rep = RecvReport::default();
             let mut rx = Some(rx);
             IS_RECEIVER.with(|c| c.set(true));
@@ -584,6 +661,7 @@ fn run_pair<T: Tx, R: Rx>(
                 let Some(r) = rx.take() else { break };
                 rx = recv_op(op, r, &r_shared, action, &mut rep);
             }
+            IS_RECEIVER.with(|c| c.set(false));
             (rep, rx)
         });
         let mut traffic_threads = Vec::new();
@@ -598,8 +676,8 @@ fn run_pair<T: Tx, R: Rx>(
             }
         }
         shared.go.store(true, Ordering::Release);
-        let s_events = sender_thread.join().expect("sender thread");
-        let (r_rep, r_rx) = receiver_thread.join().expect("receiver thread");
+        let s_events = finish(&sender_done, "sender thread");
+        let (r_rep, r_rx) = finish(&receiver_done, "receiver thread");
         for t in traffic_threads {
             t.join().expect("traffic thread");
         }
@@ -994,6 +1072,119 @@ impl Scenario for OnceScenario {
     }
 }
 
+/// Many short concurrent rounds on one persistent pair of threads (each round is an ordinary `mt`
+/// scenario over a fresh event, with its own oracles evaluated at the round's quiescence).
+#[derive(Clone, Debug, Serialize, Deserialize)]
+struct StormScenario {
+    rounds: Vec<OnceScenario>,
+}
+
+fn gen_storm_round(rng: &mut Rng, storages: &[Storage]) -> OnceScenario {
+    let storage = *rng.pick(storages);
+    if rng.bool() {
+        // The core races of the protocol: one sender step against one or two receiver steps, with
+        // next to no stagger (the windows are pairs of adjacent atomic operations on either side).
+        let (sender, receiver) = match rng.below(9) {
+            0 | 1 => (SenderAction::Drop, vec![RecvOp::Drop]),
+            2 => (SenderAction::Drop, vec![RecvOp::Poll(0), RecvOp::Drop]),
+            3 | 4 => (SenderAction::Drop, vec![RecvOp::Poll(0)]),
+            5 => (SenderAction::Send, vec![RecvOp::Poll(0)]),
+            6 => (SenderAction::Send, vec![RecvOp::Drop]),
+            7 => (SenderAction::Send, vec![RecvOp::Poll(0), RecvOp::Poll(1)]),
+            _ => (SenderAction::Send, vec![RecvOp::Poll(0), RecvOp::Drop]),
+        };
+        return OnceScenario {
+            cb: CbPlan::default(),
+            storage,
+            sender,
+            sender_yields: rng.below(3) as u8,
+            receiver_yields: rng.below(3) as u8,
+            traffic_threads: 0,
+            seq_sender_at: 0,
+            receiver,
+            concurrent: true,
+        };
+    }
+    let n = rng.weighted(&[3, 5, 3, 1]);
+    let mut receiver = Vec::new();
+    for _ in 0..n {
+        let op = match rng.weighted(&[5, 1, 2, 3]) {
+            0 => RecvOp::Poll(rng.below(2) as u8),
+            1 => RecvOp::IsReady,
+            2 => RecvOp::IntoValue,
+            _ => RecvOp::Drop,
+        };
+        receiver.push(op);
+        if op == RecvOp::Drop {
+            break;
+        }
+    }
+    let mut cb = CbPlan::default();
+    if rng.chance(1, 4) {
+        cb.yields_clone = rng.below(3) as u8;
+        cb.yields_drop = rng.below(3) as u8;
+    }
+    OnceScenario {
+        cb,
+        storage,
+        sender: if rng.chance(1, 2) { SenderAction::Send } else { SenderAction::Drop },
+        sender_yields: rng.below(4) as u8,
+        receiver_yields: rng.below(4) as u8,
+        traffic_threads: 0,
+        seq_sender_at: 0,
+        receiver,
+        concurrent: true,
+    }
+}
+
+impl Scenario for StormScenario {
+    fn generate(rng: &mut Rng, mode: &str) -> Self {
+        let storages: &[Storage] = match mode {
+            "storm" => &[Storage::Boxed, Storage::Embedded, Storage::Pooled],
+            "storm-all" => &[Storage::Boxed, Storage::Embedded, Storage::Pooled, Storage::RawPooled, Storage::Lake, Storage::RawLake],
+            other => panic!("unknown mode {other}"),
+        };
+        let n = rng.range_usize(12, 32);
+        Self { rounds: (0..n).map(|_| gen_storm_round(rng, storages)).collect() }
+    }
+
+    fn run(&self, ctx: &mut Ctx) -> Result<bool, Violation> {
+        struct Uninstall;
+        impl Drop for Uninstall {
+            fn drop(&mut self) {
+                EXEC.with(|e| *e.borrow_mut() = None);
+            }
+        }
+        EXEC.with(|e| *e.borrow_mut() = Some(Exec::new(2)));
+        let _uninstall = Uninstall;
+        let mut nontrivial = false;
+        for (i, round) in self.rounds.iter().enumerate() {
+            ctx.event_str(&format!("round {i}"));
+            nontrivial |= round.run(ctx)?;
+        }
+        ctx.probe("storm-rounds");
+        Ok(nontrivial)
+    }
+
+    fn shrink(&self) -> Vec<Self> {
+        let mut out: Vec<Self> = simkit::shrink::remove_chunks(&self.rounds).into_iter().map(|rounds| Self { rounds }).collect();
+        for (i, r) in self.rounds.iter().enumerate() {
+            for smaller in r.shrink() {
+                if smaller.concurrent {
+                    let mut c = self.clone();
+                    c.rounds[i] = smaller;
+                    out.push(c);
+                }
+            }
+        }
+        out
+    }
+
+    fn size(&self) -> usize {
+        self.rounds.iter().map(|r| 4 + r.size()).sum()
+    }
+}
+
 fn main() {
     simkit::cli_main(
         "h_once",
@@ -1002,6 +1193,8 @@ fn main() {
             entry::<OnceScenario>("C05", "seq", "op-granular interleavings on one thread"),
             entry::<OnceScenario>("C06", "mt-all", "all storage strategies, rental traffic threads"),
             entry::<OnceScenario>("C06", "seq-all", "op-granular interleavings, all storage strategies"),
+            entry::<StormScenario>("C05", "storm", "12-32 short concurrent rounds per scenario on one persistent thread pair; boxed/embedded/pooled"),
+            entry::<StormScenario>("C06", "storm-all", "the same over all storage strategies"),
         ],
     )
 }
